@@ -5,6 +5,10 @@ import json, subprocess
 props = [json.loads(l) for l in open('/verif/properties.jsonl')]
 
 CLAIMS = {
+ 'C12': dict(category='proof', design_ref='DESIGN.md §4 C12',
+   text="Deductive proof of what the code contributes to mutual exclusion, under the stated kernel assumption: device.SetLock returns success only with an exclusive non-blocking flock (argument proved to be LOCK_EX|LOCK_NB) on basedir/lock/<basename of the argument>, so 'router' and '/path/code/router' use the same lock file; every effect (device session via ApproveOrCompare, history file, status file, run logs) has the precondition 'lock held', discharged at each call site in drc.Main and doapprove.Main, so a contender that got 'Approve in progress' returns before touching anything; the *os.File carrying the lock is closed by a deferred call when Main returns and nowhere earlier, so it stays referenced (no finalizer can drop the lock during the session).",
+   note="Assumed, not provable by contracts on this code: flock(2) semantics across processes (LOCK_EX|LOCK_NB fails iff another open file description holds the lock; the lock dies with the last descriptor, also on kill). Interleavings of two processes are not explored; the claim is the per-process discipline that makes the kernel lock effective.",
+   tech='contract-based deductive verification: ghost lock state, preconditions on effect primitives, deferred-close postcondition; kernel lock semantics assumed'),
  'C13': dict(category='proof', design_ref='DESIGN.md §4 C13',
    text="Deductive proof on the real status.SetApprove/SetCompare and missing-approve check/readFile (VCs generated from go/ssa, discharged by z3/cvc5): an inductive invariant linking the two-slot status file to the ghost observation history is preserved by every operation, and under it check prints the device iff the latest conclusive observation does not establish current code (six-file comparison, bz2 aware). Holds for all histories because the invariant is inductive; one known finding (failed approve erases the successful one) is excluded by name.",
    note="Trusted: file system/clock/bzip2/json specs in /verif/specs (Read/write of the status file as ghost map; strictly increasing clock is the property's own assumption); WalkDir enumeration of devices in missing-approve Main and the arguments computed by doapprove.Main are not covered here.",
